@@ -23,7 +23,7 @@ REQUIRED_COUNTERS = ['proper', 'improper', 'exp:isa:025', 'exp:gs:6', 'exp:st:23
                      'proper-clean', 'segments-fed', 'envelope-soups', 'headers-without-control-number', 'sets-with-unclosed-LS', 'interchanges-of-other-parties', 'mutations:later-interchange-without-ISA-and-IEA']
 MIN_CASES = {'quick': 15000, 'thorough': 2000000}
 
-CTL = {'isa': ['000000001', '000000002', '000000003'], 'gs': ['1', '2', '3'], 'st': ['0001', '0002', '0003']}
+CTL = {'isa': ['000000001', '000000002', '000000003'], 'gs': ['1', '2', '3'], 'st': ['0001', '0002', 'A003', 'B004']}
 BODY = [('NM1', ['85', '2', 'X']), ('REF', ['87', '1']), ('DTP', ['472', 'D8', '20040407']), ('N3', ['1 MAIN']), ('SV1', ['HC:99213', '40', 'UN', '1'])]
 
 
